@@ -28,7 +28,7 @@ from .c10 import LABELS
 
 PROP = 'C17'
 from . import lemmas as _lemmas
-LEMMAS = [_lemmas.PROTOCOL, _lemmas.SOLVE]
+LEMMAS = [_lemmas.PROTOCOL, _lemmas.SOLVE, _lemmas.INTBC]
 RULES = {'H1': 'dimensional homogeneity of every extracted expression', 'H2': 'result dimension as demanded by the role', 'H3': 'degree one in the coefficient field',
          'H4': 'no literal threshold against dimensional quantities', 'H5': 'limiter arguments dimensionless'}
 ASSUMPTIONS = ['roles and dimensions from the README PDE and the property statement (DESIGN.md appendix B)',
